@@ -271,9 +271,9 @@ def run(s):
     from props import C08, C15
     sub = core.SubSession(s, lambda n: n.replace("C08.", "C05.filling."), lambda n: n.startswith("C08.relations_equal_invariants["))
     sub.__dict__["relations_only"] = True
-    C08.run(sub)
+    sub.run(C08)
     # the totals are DELIVERED through the writer rules (keyword -> quantity, file name, unit): C15's registry and writer-path obligations, registered here as well
-    C15.run(core.SubSession(s, lambda n: n.replace("C15.", "C05.delivery."), lambda n: n in ("C15.registry", "C15.writer_paths")))
+    core.SubSession(s, lambda n: n.replace("C15.", "C05.delivery."), lambda n: n in ("C15.registry", "C15.writer_paths")).run(C15)
     end_to_end(s)
     s.min_obligations = 13
 
